@@ -59,8 +59,19 @@ type cliWorld struct {
 	zeroTimeReqs  int
 }
 
+var clientDelaySites = []string{"client.leadingTimeConv.set", "client.leadingTimeConv.got", "client.processor.afterPull",
+	"client.primary.beforeStartStreaming", "client.downloader.beforePush"}
+
 func newCliWorld(r *Run, org origin, uri string, fate func(nr *netReq) *netFate) *cliWorld {
 	w := &cliWorld{r: r, limit: 10 * time.Minute, afterWait: 30 * time.Second}
+	// the client's own goroutines: in half of the runs each instrumented point takes 0-3 ns of simulated time,
+	// fixed per site for the run, which decides who goes first where several of them are ready at once
+	if r.T.Chance(1, 2) {
+		for _, site := range clientDelaySites {
+			r.SetDelay(site, time.Duration(r.T.Intn(4)))
+		}
+		r.Probe("client-goroutine-order-perturbed")
+	}
 	tr := newSimTransport(r)
 	w.net = &cliNet{r: r, tr: tr, org: org, fateOf: fate}
 	w.c = &gohlslib.Client{
@@ -224,6 +235,7 @@ var muxerFrame = regexp.MustCompile(`gohlslib/v2\.\(\*[mM]uxer`)
 // with a frame of package gohlslib that is not a muxer frame (helper goroutines started by the client outside
 // its routine pool count too).
 func clientGoroutines() []string {
+	syncWait()
 	buf := make([]byte, 1<<20)
 	n := runtime.Stack(buf, true)
 	var out []string
